@@ -23,6 +23,9 @@ RULE = ("one execution = (prefix list, networks, host bits, environment) on a fr
         "anonymizer with every window address anonymized; distinct_nontrivial = distinct "
         "executions in which some address changed and some listed prefix had addresses both "
         "inside and outside it in the window")
+STATE_COUNTING = ("stateless exploration of the environment: states = complete executions of the real code "
+                  "(leaves of the choice tree), transitions = environment answers given along them (edges), "
+                  "traces_validated = executions, each run directly on the implementation (no model)")
 ASSUMPTIONS = ["CIDR menu: all prefixes of length 0..3 (quick) / 0..5 (thorough) of the top "
                "window, defaults, deep prefixes /8../32; lists up to pairs (+ a few triples)",
                "flip-all answers 1 to every hash query whatever its arguments"]
@@ -286,6 +289,9 @@ class LazyPart(Part):
         for ch, imgs in runs:
             n_exec += 1
             res.evals += 1
+            res.states += 1
+            res.transitions += (len(ch.trace) if ch is not None else 0)
+            res.traces += 1
             table = ch.table() if ch is not None else case["table"]
             nd = sorted(k for k, v in table.items() if v != case["default"])
             res.nt((json.dumps(case, sort_keys=True), nd))
